@@ -1661,6 +1661,93 @@ pub fn f5o() -> Vec<Case> {
     out
 }
 
+/// F6p: parameter passing keeps the declared type of the parameter. FB inputs (visible in the
+/// instance after the call) of every numeric / bit-string type receive an argument VARIABLE and
+/// an argument EXPRESSION of every narrower type the checker accepts by implicit widening, by
+/// name and by position; a function returns its input so that the value is compared as well.
+pub fn f6p() -> Vec<Case> {
+    let mut out = Vec::new();
+    let pairs: Vec<(Ty, Ty)> = {
+        let mut v = Vec::new();
+        for &t in &INTS {
+            for &s in &INTS {
+                if same_chain(t, s) && s.bits() < t.bits() {
+                    v.push((t, s));
+                }
+            }
+            // unsigned into a wider signed type
+            for &s in &UNSIGNED {
+                if t.is_signed() && s.bits() < t.bits() {
+                    v.push((t, s));
+                }
+            }
+        }
+        for &s in &INTS {
+            if s.bits() <= 16 {
+                v.push((Ty::Real, s));
+            }
+            if s.bits() <= 32 {
+                v.push((Ty::LReal, s));
+            }
+        }
+        v.push((Ty::LReal, Ty::Real));
+        for (t, s) in [(Ty::Word, Ty::Byte), (Ty::DWord, Ty::Byte), (Ty::DWord, Ty::Word), (Ty::LWord, Ty::Byte), (Ty::LWord, Ty::Word), (Ty::LWord, Ty::DWord)] {
+            v.push((t, s));
+        }
+        v
+    };
+    let sample = |t: Ty| -> V {
+        match t {
+            Ty::Real => V::R(1.5),
+            Ty::LReal => V::L(1.5),
+            Ty::Byte | Ty::Word | Ty::DWord | Ty::LWord => V::Bits(t, 5),
+            _ => int(t, 5),
+        }
+    };
+    for (t, s) in pairs {
+        let fb = FbDef {
+            name: "Take".into(),
+            inputs: vec![Decl::new("inp", t)],
+            outputs: vec![Decl::new("seen", t)],
+            vars: vec![],
+            body: vec![assign("seen", var("inp"))],
+        };
+        let f = Func {
+            name: "Echo".into(),
+            ret: Some(t),
+            inputs: vec![Decl::new("v", t)],
+            body: vec![assign("Echo", var("v"))],
+            ..Default::default()
+        };
+        for style in ["named", "positional"] {
+            // a positional call names every parameter: the input and the output
+            let arg = |e: E| if style == "named" { vec![Arg::In("inp".into(), e)] } else { vec![Arg::Pos(e), Arg::Pos(var("r"))] };
+            let mut p = prog(
+                vec![Decl { name: "fb".into(), ty: TyX::Fb("Take".into()), init: None }, Decl::init("a", sample(s)), Decl::new("r", t), Decl::new("e", t)],
+                vec![S::FbCall("fb".into(), arg(var("a"))), assign("r", E::Fld("fb".into(), "seen".into())), assign("e", E::Call("Echo".into(), vec![Arg::Pos(var("a"))]))],
+            );
+            p.fbs.push(fb.clone());
+            p.funcs.push(f.clone());
+            out.push(case("F6p", format!("parameter-passing:fb-input:variable:{style}:{}<-{}", t.name(), s.name()), p, 2, true));
+        }
+    }
+    out
+}
+
+/// F3r: the `r := r * 2.0` idiom on REAL variables (an untyped real literal in arithmetic with a
+/// REAL operand), every arithmetic operator; the result must stay a REAL.
+pub fn f3r() -> Vec<Case> {
+    let mut out = Vec::new();
+    for op in [Op::Add, Op::Sub, Op::Mul, Op::Div] {
+        for side in ["literal-right", "literal-left"] {
+            let e = if side == "literal-right" { bin(op, var("r"), ulit(V::L(2.0))) } else { bin(op, ulit(V::L(2.0)), var("r")) };
+            let p = prog(vec![Decl::init("r", V::R(1.5)), Decl::new("k", Ty::Int)], vec![assign("r", e), assign("k", bin(Op::Add, var("k"), lit(int(Ty::Int, 1))))]);
+            out.push(case("F3r", format!("real-arith-untyped-literal:{}:{side}", op.name()), p, 2, true));
+        }
+    }
+    out
+}
+
 pub fn corpus(thorough: bool) -> Vec<Case> {
     let mut out = Vec::new();
     out.extend(f2());
@@ -1678,6 +1765,8 @@ pub fn corpus(thorough: bool) -> Vec<Case> {
     out.extend(f14());
     out.extend(f15());
     out.extend(f5o());
+    out.extend(f6p());
+    out.extend(f3r());
     out.extend(super::stdlib::cases(thorough));
     out.extend(super::oop::cases(thorough));
     out
